@@ -111,6 +111,7 @@ def enumerate_cases(tier, seed):
     """live differential: the same requests over real sockets (plaintext and real TLS) and through the in-process seam"""
     yield {"mode": "live", "servertype": "ThreadingTCPServer"}
     yield {"mode": "live", "servertype": "ForkingTCPServer"}
+    yield {"mode": "live", "servertype": "ThreadingTCPServer", "log": "file-strict"}
     # every argument-part mutation for a script and for a plain file, through every form (in-process)
     site = [["run.sh", {"kind": "exec"}], ["readme.txt", {"kind": "txt", "content": "hello\n"}]]
     for target in (2, 1):
@@ -123,11 +124,11 @@ def enumerate_cases(tier, seed):
 LIVE_SPEC = [
     ["readme.txt", "f", "hello\nworld\n"], ["empty.txt", "f", ""], ["big.bin", "f", "".join(chr(i % 251) for i in range(150000))],
     ["page.html", "f", "<html><head><title>A Page</title></head><body>x</body></html>\n"], ["dir/sub/deep.txt", "f", "deep\n"],
-    ["dir/a b.txt", "f", "blank in name\n"], ["dir/.names", "f", "Path=./sub\nName=Sub Dir\n"], ["box.mbox", "f", None],
+    ["dir/a b.txt", "f", "blank in name\n"], ["dir/caf\xe9 \xff.txt", "f", "a name that is not UTF-8\n"], ["dir/.names", "f", "Path=./sub\nName=Sub Dir\n"], ["box.mbox", "f", None],
     ["arc.zip", "zip", {"members": [["in/x.txt", "f", "zip member\n", {}], ["big.dat", "f", "z" * 70000, {}]]}],
     ["c.txt.gz", "f", None], ["run.sh", "f", None, 0o755],
 ]
-LIVE_SELS = ["/", "/readme.txt", "/empty.txt", "/big.bin", "/page.html", "/dir", "/dir/sub/deep.txt", "/dir/a b.txt", "/box.mbox",
+LIVE_SELS = ["/", "/readme.txt", "/empty.txt", "/big.bin", "/page.html", "/dir", "/dir/sub/deep.txt", "/dir/a b.txt", "/dir/caf\xe9 \xff.txt", "/box.mbox",
              "/box.mbox|/MBOX-MESSAGE/1", "/arc.zip", "/arc.zip/in/x.txt", "/arc.zip/big.dat", "/arc.zip/big.txt.gz", "/c.txt.gz", "/run.sh", "/nosuch",
              "/dir/../readme.txt", "/URL:http://example.org/"]
 
@@ -153,7 +154,18 @@ def _check_live(case, ctx):
     fails = []
     try:
         conf = live.write_conf(os.path.join(base, "live.conf"), root, "full", case["servertype"], cachetime=0)
-        srv = live.Server(conf)
+        if case.get("log") == "file-strict":
+            # the server logs to its standard output (logmethod = file), and that stream encodes strictly, as under any
+            # ordinary UTF-8 locale: a request line that is not valid UTF-8 must still be logged and answered
+            import configparser
+            cp = configparser.ConfigParser()
+            cp.read(conf)
+            cp.set("logger", "logmethod", "file")
+            with open(conf, "w") as f:
+                cp.write(f)
+            srv = live.Server(conf, capture_log=True, env={"PYTHONIOENCODING": "utf-8:strict"})
+        else:
+            srv = live.Server(conf)
         cfg = drive.make_config(root, "full", **{"handlers.dir.DirHandler::cachetime": "0"})
         for sel in LIVE_SELS:
             for form in FORMS:
